@@ -89,7 +89,7 @@ struct Known {
 }
 
 fn load_known() -> Vec<Known> {
-    let path = verif_dir().join("known_findings.jsonl");
+    let path = verif_dir().join("known_findings.txt");
     let mut out = Vec::new();
     if let Ok(s) = std::fs::read_to_string(path) {
         for line in s.lines() {
